@@ -138,7 +138,7 @@ impl SortProcess {
             Direction::Asc => {
                 if let Some(mut last_list) = self.data.last_entry() {
                     let v: &mut VecDeque<_> = last_list.get_mut();
-                    v.pop_back();
+                    v.pop_front();
                     if v.is_empty() {
                         last_list.remove();
                     }
@@ -147,7 +147,7 @@ impl SortProcess {
             Direction::Desc => {
                 if let Some(mut last_list) = self.data.first_entry() {
                     let v: &mut VecDeque<_> = last_list.get_mut();
-                    v.pop_back();
+                    v.pop_front();
                     if v.is_empty() {
                         last_list.remove();
                     }
